@@ -161,10 +161,11 @@ PROPS = {
     "C16": {
         "theorems": ["C16_invert_invert", "C16_normalize_mem", "C16_normalize_oneway", "C16_normalize_idem",
                      "C16_normalize_invert", "C16_string_invert", "C16_rels", "C16_rels_pair_once",
-                     "C16_rels_oneway_once", "C16_rels_order", "C16_rels_perm", "C16_rels_types_perm"],
+                     "C16_complete_fields", "C16_rels_oneway_once", "C16_rels_order", "C16_rels_perm", "C16_rels_types_perm",
+                     "C16_rels_types_perm_needs_distinct_names", "C16_rels_coherent", "C16_unrepaired_counterexample"],
         "suites": [("schema16", 16000, 150000)],
-        "level_text": "All twelve statements are Lean theorems over every relationship value (arbitrary byte-string names) and every schema value; no bound. The Go functions Invert/Normalize/String/Rels are tied to the model by running both on the same generated relationships and schemas (adversarial name pools) and by the Go-side evaluation of the laws on the real code.",
-        "level_note": "Trusted: Lean kernel; propext/Classical.choice/Quot.sound; the hand-written mirror of type.go Rel.* and schema.go Rels/buildRels (validated by correspondence on every run); sort.Slice modelled as any sorting function (result unique under the total order relLess); Go map[Rel]struct{} modelled as a duplicate-free list.",
+        "level_text": "All statements are Lean theorems over every relationship value (arbitrary byte-string names) and every schema value; no bound. REPAIRED DEFECT (found by stating the last clause of the property in full): Schema.Check never compares the cardinality flags of the two sides of a two-way pair and BuildType always leaves FromOne false, so for an ordinary struct-built pair (users.posts []string / posts.author string) the two sides normalised to two different values and Rels() listed the pair twice although Check reported nothing (C16_unrepaired_counterexample). buildRels now completes each two-way relationship before normalising it - FromOne becomes the conjunction of ToOne over the relationships of the target type that point back (Check's matching criterion), when one exists - and the model's relSet/relsSorted mirror that (Schema.complete). C16_rels_coherent then proves the clause at full strength for every coherent schema (C14's invariant Inv, Check reports nothing, every FromType is the owning type): each one-way relationship is listed exactly once as itself; for each two-way relationship Check's reciprocal exists, the two sides are completed with each other's ToOne to a relationship and its inverse, which normalise to one value listed exactly once (a self-inverse relationship is its own reciprocal and its own pair); every entry is one of those; and the listing is a permutation of the duplicate-free list of the completed ends that Normalize keeps, so its length is the number of one-way relationships plus the number of two-way pairs (each pair has exactly one end Normalize keeps). Order independence is restated for the completed set (C16_rels_order, C16_rels_perm: same type names, maps in any order; C16_rels_types_perm: types in any order, given distinct type names - needed, C16_rels_types_perm_needs_distinct_names, because the completion looks the target type up by name). The Go functions Invert/Normalize/String/Rels are tied to the model by running both on the same generated relationships and schemas (adversarial name pools) and by the Go-side evaluation of the laws on the real code; suite schema16 builds every schema a fourth time as struct-built types declare it (both halves of every pair with FromOne false) and requires one entry per one-way relationship and per pair, carrying the ToOne of both sides (verdict FAIL:struct-like schema on the unrepaired code).",
+        "level_note": "Trusted: Lean kernel; propext/Classical.choice/Quot.sound; the hand-written mirror of type.go Rel.* and schema.go Rels/buildRels (validated by correspondence on every run, and proved equal to the translated source: GenC15b); sort.Slice modelled as any sorting function (result unique under the total order relLess); Go map[Rel]struct{} modelled as a duplicate-free list.",
         "assumptions": ["sort.Slice returns a sorted permutation of its input (modelled by List.mergeSort; the result is unique because relLess is a total order)",
                         "Go map with Rel keys is a set of Rel values (modelled by a duplicate-free list)"],
     },
@@ -258,7 +259,7 @@ GEN_WHAT = {
     "GenC10b": "the type switch of checkVal (29 cases over the Go types of attribute values and their pointer forms, the nil handling, the type assertions on the filter's value as panics), checkBytes and checkSlice - an `any` holding an attribute value is the model's GoVal, pointers are Options, the outcome of comparing two non-nil pointers is a universally quantified parameter; for values that are images of Go values, and checkVal under the hypothesis that a nil pointer attribute is compared with a value of its own type or for (in)equality: the code returns false without asserting the filter value's type there, the model panics - a checked counterexample, on ill-typed filters only -",
     "GenC09": "sortedResources.Less (range.go: the rule loop with its `-` prefixes, the id rule, the 25-case type switch with the assertions on the second value, the nil ordering of pointers, the byte loop, continue on ties; getAttrVal is a parameter instantiated with the model's, s.col[i] is the list read; the types without a case - uint64, *uint64, *[]byte - compare as ties in the translation as in the model: Gen_sortedResources_Less_uint64_tie)",
     "GenC03b": "Document.Include (document.go: the receiver *Document is the model's Document threaded as a value, d.Data.(Resource) / d.Data.(Collection) are the constructors of the primary-data sum, a collection is read by GetType().Name, Len() and At(i) below Len(); the Include theorems of C03 - no (type, id) pair twice across primary data and included, step and history - are restated about the translated method), (*Resources).GetType/Len/At/Add and (*WrapperCollection).GetType/Len/At/Add (the index read of At is checked in the translation: Resources.At never panics, WrapperCollection.At panics below zero as the model says; r.(*Wrapper) is a parameter), NewIdentifiers, Identifiers.IDs (the stores ids[n] = … into a slice made by make([]string, len(i)) are List.set under the loop's own bound), Meta.Has and Meta.GetInt (on int and string values)",
-    "GenC15b": "Schema.Check ([]error as a list with one Res.err per appended error: the result is, relationship by relationship in iteration order, checkRel errors, and its length is checkCount), Schema.buildRels (map[Rel]struct{} as a list of entries with distinct keys: the same set as relSet), Schema.Rels (sort.Slice read as the merge sort by the translated comparison, exact because relLess is a strict total order on the distinct keys: equal to relsSorted whatever the iteration order of the map) and Type.Copy (NewFunc not modelled; on maps with unique keys the copy has the source's name and entries)",
+    "GenC15b": "Schema.Check ([]error as a list with one Res.err per appended error: the result is, relationship by relationship in iteration order, checkRel errors, and its length is checkCount), Schema.buildRels (map[Rel]struct{} as a list of entries with distinct keys; the range variable whose field FromOne the body stores into is read as a local copy of the element, the found/one loop is the model's Schema.complete: the same set as relSet), Schema.Rels (sort.Slice read as the merge sort by the translated comparison, exact because relLess is a strict total order on the distinct keys: equal to relsSorted whatever the iteration order of the map) and Type.Copy (NewFunc not modelled; on maps with unique keys the copy has the source's name and entries)",
 }
 GEN_USERS = {"C16": ["GenC16", "GenC15b"], "C10": ["GenC10", "GenC10b"], "C09": ["GenC10", "GenC10b", "GenC09"], "C14": ["GenC14", "GenC15", "GenC14b"], "C15": ["GenC15", "GenC15b"], "C12": ["GenC15", "GenC15b"], "C17": ["GenC14"], "C19": ["GenC14"],
              "C03": ["GenC03", "GenC03b"], "C04": ["GenC03"], "C07": ["GenC07", "GenC08", "GenC07b"], "C08": ["GenC08", "GenC07b"]}
